@@ -771,7 +771,18 @@ impl<'de> serde::de::Visitor<'de> for LocaleSeed<'_> {
                 foreign_keys_paths: self.foreign_keys_paths,
             })?;
             self.key_path.pop_key();
-            keys.insert(locale_key, value);
+            // keys are trimmed: "a" and "a " are the same key, the result must not depend on which comes last
+            match keys.entry(locale_key) {
+                Entry::Vacant(entry) => {
+                    entry.insert(value);
+                }
+                Entry::Occupied(entry) => {
+                    return Err(serde::de::Error::custom(format!(
+                        "duplicate key {:?}",
+                        entry.key()
+                    )));
+                }
+            }
         }
 
         Ok(keys)
